@@ -391,6 +391,8 @@ type FuncReport struct {
 	Obls       []*Obl
 	Exits      int
 	HavocCalls int
+	// contracts relied upon at call sites without being verified against a body here
+	UsedTrusted []string
 }
 
 // verifyFunction generates the obligations of one function under contract.
@@ -491,6 +493,16 @@ func (e *Engine) verifyFunction(fn *ssa.Function, ct *Contract) *FuncReport {
 	rep.SpecErrs = c.specErrs
 	rep.Obls = c.obls
 	rep.HavocCalls = c.stats.havocCalls
+	for uc := range c.usedContracts {
+		if uc.Trusted {
+			rep.UsedTrusted = append(rep.UsedTrusted, uc.Pkg+": "+uc.FuncName)
+		}
+		for _, en := range uc.Ensures {
+			if en.Assumed {
+				rep.UsedTrusted = append(rep.UsedTrusted, uc.Pkg+": "+uc.FuncName+" [assumed clause: "+en.Text+"]")
+			}
+		}
+	}
 	for _, o := range c.obls {
 		if len(o.Props) == 0 {
 			o.Props = ct.Props
